@@ -76,7 +76,7 @@ def sweep(ctx: Ctx):
     flips = [f"flip:{b}" for b in range(512)]
     lens = [f"len:{n}" for n in range(0, 97) if n != 64]
     types = [f"type:{t}" for t in range(16) if t != 1]
-    others = ["otherkey", "error", "none", "enc", "garbage", "long", "short"]
+    others = ["otherkey", "error", "none", "enc", "encold", "garbage", "long", "short"]
     lentypes = [f"lentype:{64 + n}:{n}" for n in range(1, 16)] + [f"lentype:{64 + n}:{h}" for n, h in ((1, 2), (16, 1), (32, 2), (5, 15), (0, 5), (0, 15))]
     cuts = [f"cut:{n}" for n in range(1, 72)]
     for cls in flips + lens + types + others + lentypes + cuts:
